@@ -62,6 +62,13 @@ def _shard(args):
     warnings.filterwarnings("ignore")
     mod = importlib.import_module("pbt.props.%s" % prop.lower())
     ctx = core.Ctx(prop, tier, seed, shard, nshards, mod)
+    # watchdog: a hang is a harness-level "inconclusive" (exit 2), never a violation
+    import signal
+
+    def _alarm(signum, frame):
+        raise core.HarnessError("shard %d exceeded its wall-clock guard while working on %s" % (shard, core.canon(ctx._current)[:1500]))
+    signal.signal(signal.SIGALRM, _alarm)
+    signal.alarm(int(os.environ.get("VERIF_SHARD_GUARD_S", "900" if tier == "quick" else "14400")))
     try:
         mod.run(ctx)
         # shrink unlisted buckets inside the shard that found them (thorough tier only)
@@ -74,6 +81,8 @@ def _shard(args):
         return {"harness_error": str(e)}
     except Exception:
         return {"harness_error": traceback.format_exc()}
+    finally:
+        signal.alarm(0)
     return ctx.export()
 
 
